@@ -1408,6 +1408,9 @@ void factorization_recombination(const lp_upolynomial_t* f, const lp_upolynomial
           for (i = 0; i < sel_size; ++ i) {
             enabled[sel[i]] = 0;
           }
+        } else {
+          // Not a factor, the candidate is not needed any more
+          lp_upolynomial_delete(candidate);
         }
       }
     }
@@ -1685,6 +1688,7 @@ lp_upolynomial_factors_t* upolynomial_factor_Z(const lp_upolynomial_t* f) {
 
   // Get rid of the square free factors
   lp_upolynomial_factors_destruct(sq_free_factors, 0);
+  lp_upolynomial_delete(f_pp);
 
   if (trace_is_enabled("factorization")) {
     tracef("upolynomial_factor_Z("); lp_upolynomial_print(f, trace_out); tracef(") = ");
